@@ -276,6 +276,10 @@ pub fn corpora(tier: Tier) -> Vec<Corpus> {
             out.push(Corpus { name: format!("pair[{} | {}] dict={dict:?}", sents[i], sents[j]), lines: vec![(false, sents[i].clone()), (false, sents[j].clone()), filler.clone()], tag_dict: dict });
         }
     }
+    // systematic tag matrices
+    out.extend(tag_matrix_corpora(2, 2, 1));
+    out.extend(tag_matrix_corpora(3, 2, tier.pick(11, 2)));
+    out.extend(tag_matrix_corpora(2, 3, tier.pick(11, 2)));
     // partially annotated sentences
     for (n, lines) in [
         ("partial-1", vec![(true, "a/X|b-a/Y".to_string()), (true, "a b/Q|a/Z".to_string()), (true, "a/Y|a/X".to_string())]),
